@@ -291,6 +291,9 @@ struct Sim {
     p_check: u64,
     p_poke: u64,
     budget_events: usize,
+    /// Some(n): the transfer opens with a flood of n repair packets that block-level receivers
+    /// take as one batch (a matrix of more than 2^16 rows)
+    mega: Option<u32>,
 }
 
 impl Sim {
@@ -526,7 +529,24 @@ pub fn simulate(seed: u64, profile: Profile, oracles: Oracles, transcript: bool,
     simulate_setup(r, setup, profile, oracles, transcript)
 }
 
-pub fn simulate_setup(mut r: Rng, setup: Setup, profile: Profile, oracles: Oracles, transcript: bool) -> SimOut {
+/// One small block (4..40 symbols, or 250..300) whose transfer opens with a flood of about 2^16
+/// repair packets: a hoarding block-level receiver hands all of them to its decoder at once, which
+/// then solves a system of more than 65 536 rows (row indices that no longer fit 16 bits).
+pub fn simulate_mega(seed: u64, profile: Profile, oracles: Oracles, transcript: bool) -> SimOut {
+    let mut r = Rng::new(seed);
+    let (lo, hi) = if r.chance(1, 4) { (250, 300) } else { (4, 40) };
+    let mut setup = gen_setup_band(&mut r, profile, hi, Some(lo));
+    setup.receivers.truncate(2);
+    setup.receivers[0].kind = RxKind::Block;
+    let n = 65_400 + r.below(800) as u32;
+    simulate_setup_mega(r, setup, profile, oracles, transcript, Some(n))
+}
+
+pub fn simulate_setup(r: Rng, setup: Setup, profile: Profile, oracles: Oracles, transcript: bool) -> SimOut {
+    simulate_setup_mega(r, setup, profile, oracles, transcript, None)
+}
+
+fn simulate_setup_mega(mut r: Rng, setup: Setup, profile: Profile, oracles: Oracles, transcript: bool, mega: Option<u32>) -> SimOut {
     let ex = match Exec::new(&setup, oracles, transcript, false) {
         Ok(e) => e,
         Err(f) => {
@@ -565,7 +585,11 @@ pub fn simulate_setup(mut r: Rng, setup: Setup, profile: Profile, oracles: Oracl
         p_check,
         p_poke,
         budget_events: 60_000,
+        mega,
     };
+    if matches!(profile, Profile::C01 | Profile::C08) {
+        s.faults.touch("hoarded_flood_over_65536_rows");
+    }
     for k in ["drop_iid", "drop_burst", "partition_drop", "duplicate", "reorder", "stalled_arrival", "late_join"] {
         s.faults.touch(k);
     }
@@ -617,6 +641,33 @@ fn run_phases(s: &mut Sim, ks: &[u32]) -> Result<(), Fail> {
             }
         }
     }
+    if let Some(n) = s.mega {
+        // ---------------- a flood first: all but a few source packets and ~2^16 repair packets,
+        // handed to every receiver as one batch
+        let k = ks[0];
+        let rep = s.r.usize_below(nrep);
+        let room = (1u32 << 24) - k;
+        let start = match s.r.below(3) {
+            0 => 0,
+            1 => s.r.below((room - n) as u64) as u32,
+            _ => room - n,
+        };
+        s.emit(Event::Source { replica: rep, sbn: 0 })?;
+        s.emit(Event::Window { replica: rep, sbn: 0, s: start, n })?;
+        let withheld = 1 + s.r.below(k.min(4) as u64) as u32;
+        let mut batch: Vec<Frame> = (withheld..k).map(|e| Frame { replica: rep, sbn: 0, esi: e }).collect();
+        batch.extend((0..n).map(|i| Frame { replica: rep, sbn: 0, esi: k + start + i }));
+        if s.r.chance(1, 2) {
+            s.r.shuffle(&mut batch);
+        }
+        s.now += n as u64;
+        for rx in 0..s.ex.nrx() {
+            s.deliver(rx, batch.clone())?;
+        }
+        s.faults.inc("hoarded_flood_over_65536_rows");
+    }
+    let skip_to_final = s.mega.is_some();
+    if !skip_to_final {
     // ---------------- phase A: opening burst of source packets
     let mut opening: Vec<Frame> = vec![];
     let burst_rep = (0..nrep).find(|i| s.ex.replica_has_encoder(*i));
@@ -762,6 +813,7 @@ fn run_phases(s: &mut Sim, ks: &[u32]) -> Result<(), Fail> {
         for rx in 0..s.ex.nrx() {
             s.emit(Event::Check { rx })?;
         }
+    }
     }
     // ---------------- final phase: faults off, every source packet retransmitted in order
     s.faults_on = false;
